@@ -96,8 +96,10 @@ class RectanglePixelRegion(PixelRegion):
     def contains(self, pixcoord):
         cos_angle = np.cos(self.angle)
         sin_angle = np.sin(self.angle)
-        dx = pixcoord.x - self.center.x
-        dy = pixcoord.y - self.center.y
+        # float64 offsets: integer coordinate arrays keep their dtype and
+        # their differences would wrap around
+        dx = np.subtract(pixcoord.x, self.center.x, dtype=float)
+        dy = np.subtract(pixcoord.y, self.center.y, dtype=float)
         dx_rot = cos_angle * dx + sin_angle * dy
         dy_rot = sin_angle * dx - cos_angle * dy
         in_rect = ((np.abs(dx_rot) < self.width * 0.5)
